@@ -250,18 +250,20 @@ func (c *SingleDestinationRoundTripper) sendRequestBody(str Stream, body io.Read
 	buf := make([]byte, bodyCopyBufferSize)
 	sr := &cancelingReader{str: str, r: body}
 	var w io.Writer = str
-	if len(dumps) > 0 {
-		for _, d := range dumps {
-			w = io.MultiWriter(w, d.RequestBodyOutput())
+	for _, d := range dumps {
+		if d.RequestBody() {
+			w = d.WrapRequestBodyWriter(w)
 		}
 	}
 	writeTail := func() {
 		for _, d := range dumps {
-			d.Output().Write([]byte("\r\n\r\n"))
+			if d.RequestBody() {
+				d.DumpDefault([]byte("\r\n\r\n"))
+			}
 		}
 	}
 	written, err := io.CopyBuffer(w, sr, buf)
-	if len(dumps) > 0 && err == nil && written > 0 {
+	if err == nil && written > 0 {
 		writeTail()
 	}
 
